@@ -37,6 +37,11 @@ inductive Reachable (m : Lts σ ℓ) : σ → Prop
 /-- some transition is enabled -/
 def Enabled (m : Lts σ ℓ) (s : σ) : Prop := ∃ l s', m.step s l = some s'
 
+theorem enabled_of_isSome (m : Lts σ ℓ) (s : σ) (l : ℓ) (h : (m.step s l).isSome = true) : Enabled m s := by
+  cases h' : m.step s l with
+  | none => simp [h'] at h
+  | some s' => exact ⟨l, s', h'⟩
+
 theorem invariant (m : Lts σ ℓ) (P : σ → Prop) (h0 : P m.init)
     (hs : ∀ s l s', P s → m.step s l = some s' → P s') : ∀ s, Reachable m s → P s := by
   intro s h
